@@ -973,7 +973,10 @@ fn ambiguous_literal(r: &Recipe, e: &MExpr) -> bool {
             MType::Ip => text.parse::<std::net::IpAddr>().is_ok() || (in_set && hexish(text)),
             MType::Int => {
                 let t = text.strip_prefix('-').unwrap_or(text);
-                (!t.is_empty() && t.chars().all(|c| c.is_ascii_digit())) || (t.starts_with("0x") && t[2..].chars().all(|c| c.is_ascii_hexdigit()))
+                (!t.is_empty() && t.chars().all(|c| c.is_ascii_digit()))
+                    || (t.starts_with("0x") && t[2..].chars().all(|c| c.is_ascii_hexdigit()))
+                    // inside a set, `61-61-61` (hex pairs joined by dashes, all decimal digits) reads as 61 -61 -61
+                    || (in_set && t.chars().any(|c| c.is_ascii_digit()) && t.chars().all(|c| c.is_ascii_digit() || c == '-'))
             }
             _ => false,
         }
